@@ -118,7 +118,7 @@ fn operand<'tcx>(cx: &Cx<'tcx>, owner: LocalDefId, body: &Body<'tcx>, j: &mut J,
             j.obj_open();
             let t = c.const_.ty();
             if !fn_operand(cx, owner, j, t) {
-                let s = rustc_middle::ty::print::with_no_trimmed_paths!(format!("{}", c.const_));
+                let s = rustc_middle::ty::print::with_no_visible_paths!(rustc_middle::ty::print::with_no_trimmed_paths!(format!("{}", c.const_)));
                 j.kstr("c", &s);
                 j.kstr("ty", &cx.ty(t));
             }
